@@ -85,7 +85,8 @@ def explore_strip(run, n_random):
             parts.append(rng.choice(["", "", " ", "\t", "   "]) + l + rng.choice(["", "", " ", "  \t"]))
             if rng.random() < 0.3:
                 parts.append(rng.choice(["", "   ", "\t"]))
-        sep = rng.choice(["\n", "\n", "\r\n", "\n\n"])
+        # (a log may have passed through other hands: every line boundary str.splitlines knows separates two records)
+        sep = rng.choice(["\n", "\n", "\r\n", "\n\n", "\r", "\x0b", "\x0c", "\x1c", "\x1d", "\x1e", "\x85", "\u2028", "\u2029", "\r\r"])
         t2 = rng.choice(["", "\n", " \n"]) + sep.join(parts) + rng.choice(["", "\n", "\n\n"])
         for t in (t1, t2):
             inputs.append(t)
@@ -131,6 +132,16 @@ def explore_strip(run, n_random):
                                                                                         "compare equal" if real == bodies0 else "differ otherwise"), cj)
             run.case(cj, nontrivial=True)
             continue
+        if kind == "trace" and isinstance(real, list) and len(real) >= 2 and rng.random() < 0.3:
+            # the caller edits the list it was given (drops the start line, sorts ...), then the same text is stripped again
+            del real[0]
+            real.reverse()
+            again = py_stripped(s)
+            run.count("strip input: same text stripped again after the first result was edited")
+            if again != model:
+                run.violate("C32/result-depends-on-earlier-calls", "the same %d-line trace stripped a second time, after the caller had edited the "
+                            "list the first call returned, gives %r; the first time %r" % (len(model), again, model), cj)
+            real = again
         if kind == "trace":
             if len(bodies) >= 2 and real != bodies:
                 run.violate("C32/multi-line", "stripped() of a %d-line trace returned %r, expected the bodies %r" % (len(bodies), real, bodies), cj)
@@ -404,6 +415,85 @@ def explore_stmts(run, n_random):
                 os.unlink(path4)
             except OSError:
                 pass
+        # the attribute read inside a hook of the user's class (a __getattr__ fallback, a property, a descriptor of its own) whose
+        # RESULT is then used on a line with operators: the read happened on the hook's own line
+        path5 = os.path.join(VERIF, "harness", "_gen_hooks_%d.py" % os.getpid())
+        hook_stmts = ["v0 += o.derived", "if o.prop >= 3: pass", "v0 = o.derived <= 5", "d['k0'] -= o.prop", "v0 = o.derived", "v1 *= o.viaget",
+                      "if o.viaget <= o.prop: pass", "v0 = f(o.derived) << 2", "v2 **= o.prop", "v0 = (o.viaget, o.derived)"]
+        src5 = ["import miros.thread_safe_attributes as mtsa\n\n\ndef f(a):\n    return 3\n\n",
+                "class Celsius:\n    def __get__(self, instance, owner):\n        return instance.x - 273\n\n",
+                "def make():\n"
+                "    class Hooked(metaclass=mtsa.MetaThreadSafeAttributes):\n        _attributes = ['x']\n        viaget = Celsius()\n\n"
+                "        def __getattr__(self, name):\n            if name == 'derived':\n                return self.x * 2\n            raise AttributeError(name)\n\n"
+                "        @property\n        def prop(self):\n            return self.x + 1\n    return Hooked\n\n"]
+        # a class that guards its attribute names (a `__setattr__` that refuses names it does not know: a typo guard, a class sealed
+        # after __init__): assignments to its thread-safe attributes are ordinary statements
+        sealed_stmts = ["o.x = 5", "o.x += 1", "o.y = o.x", "o.x = v0", "o.y -= 2", "o.x, o.y = 1, 2"]
+        src5.append("def make_sealed():\n"
+                    "    class Sealed(metaclass=mtsa.MetaThreadSafeAttributes):\n        _attributes = ['x', 'y']\n        _known = ('x', 'y', 'note')\n\n"
+                    "        def __setattr__(self, name, value):\n            if name not in self._known:\n"
+                    "                raise AttributeError('%s has no attribute %r' % (type(self).__name__, name))\n"
+                    "            object.__setattr__(self, name, value)\n    return Sealed\n\n")
+        for k, t in enumerate(sealed_stmts):
+            src5.append("def z%d(o, v0, v1, v2, d):\n    %s\n" % (k, t))
+        for k, t in enumerate(hook_stmts):
+            src5.append("def h%d(o, v0, v1, v2, d):\n    %s\n" % (k, t))
+        with open(path5, "w") as fh:
+            fh.write("\n".join(src5))
+        try:
+            spec5 = importlib.util.spec_from_file_location("_gen_hooks", path5)
+            mod5 = importlib.util.module_from_spec(spec5)
+            spec5.loader.exec_module(mod5)
+            for k, t in enumerate(sealed_stmts):
+                Sealed = mod5.make_sealed()
+                o7 = Sealed()
+                locks7 = {}
+                for nm in ("x", "y"):
+                    Sealed.__dict__[nm]._lock = locks7[nm] = dsched.DRLock()
+                err = None
+                try:
+                    getattr(mod5, "z%d" % k)(o7, 1, 2, 3, {})          # (for some of them the first assignment the instance ever sees)
+                    o7.note = "free-form"
+                except Exception as ex:  # noqa
+                    err = "%s: %s" % (type(ex).__name__, ex)
+                held = {nm: l._count for nm, l in locks7.items() if l._count}
+                cj = {"what": "stmt-sealed", "stmt": t}
+                run.count("statement on a class whose __setattr__ refuses unknown names")
+                run.traces_validated += 1
+                if held:
+                    run.violate("C28/lock-leak/class-guards-its-attribute-names", "after `%s` on an instance of a class whose __setattr__ refuses names it "
+                                "does not know%s the calling thread still holds the lock of %s" % (t, " (the statement raised %s)" % err if err else "", held), cj)
+                elif err:
+                    run.violate("C28/statement-error/class-guards-its-attribute-names", "`%s` on an instance of a class whose __setattr__ refuses names it "
+                                "does not know raised %s" % (t, err), cj)
+                run.case(cj, nontrivial=True)
+            for k, t in enumerate(hook_stmts):
+                Hooked = mod5.make()            # a class (and descriptor) of its own for every statement
+                o6 = Hooked()
+                desc6 = Hooked.__dict__["x"]
+                desc6._lock = dsched.DRLock()
+                dd = {"k0": 1, "k1": 2}
+                err = None
+                try:
+                    o6.x = 4
+                    getattr(mod5, "h%d" % k)(o6, 1, 2, 3, dd)
+                except Exception as ex:  # noqa
+                    err = "%s: %s" % (type(ex).__name__, ex)
+                cj = {"what": "stmt-hook", "stmt": t}
+                run.count("statement using a value a user hook derives from the attribute")
+                run.traces_validated += 1
+                if err:
+                    run.violate("C28/hook-read-error", "`%s` (derived / prop / viaget read o.x inside a hook of the class) raised %s" % (t, err), cj)
+                elif desc6._lock._count:
+                    run.violate("C28/lock-leak/read-inside-a-hook", "after `%s` - where the attribute is read inside a __getattr__ / property / descriptor "
+                                "hook of the user's class, on the hook's own line - the calling thread still holds the attribute's lock (%d "
+                                "acquisition(s))" % (t, desc6._lock._count), cj)
+                run.case(cj, nontrivial=True)
+        finally:
+            try:
+                os.unlink(path5)
+            except OSError:
+                pass
         # the same attribute used by ANOTHER statement at the same file and line (an edited and reloaded module):
         # the verdict on a statement must come from the text that is running now
         import linecache
@@ -515,7 +605,12 @@ def explore_stmts(run, n_random):
 def text_shaped_string(rng, depth):
     """a str whose content is itself some data notation (a JSON text, a Python repr, a number, a keyword, a date, markup...):
     a payload is data, whatever it looks like"""
-    k = rng.randrange(9)
+    k = rng.randrange(11)
+    if k >= 9:
+        # a notation's keyword inside ordinary text, next to the punctuation it has in that notation
+        kw = rng.choice(["NaN", "Infinity", "-Infinity", "null", "true", "false", "None", "undefined"])
+        return rng.choice(["", "x", "sensor 3:", "limits", "a,"]) + rng.choice([" ", "[", ": ", ", ", "(", "{", "\""]) + kw + \
+            rng.choice([",", "]", "}", " ", ")", ", retrying", "\"", ""]) + rng.choice(["", " x", "]", "}"])
     if k == 0:
         return json.dumps(gen_json(rng, max(0, depth - 1)))
     if k == 1:
@@ -547,7 +642,8 @@ def gen_json(rng, depth):
     if rng.random() < 0.12:
         # a dict that looks like a serialised event itself
         return {"signal_name": rng.choice(["B", "INNER_%d" % rng.randint(0, 99), 7, None]), "payload": gen_json(rng, depth - 1)}
-    return {rng.choice(["k", "", "key é", "a\"b", "0"]) + str(i): gen_json(rng, depth - 1) for i in range(rng.randint(0, 3))}
+    return {(rng.choice(["k", "", "key é", "a\"b", "0"]) if rng.random() < 0.85 else text_shaped_string(rng, 0)) + str(i): gen_json(rng, depth - 1)
+            for i in range(rng.randint(0, 3))}
 
 
 def json_equal(a, b):
